@@ -48,7 +48,7 @@ CHECKS = {
     "C15": dict(
         module="checks.c15",
         engine="sim_quant",
-        text="Generated programs are transformed with simulate_format/simulate_fp8 and driven through short histories (repeated calls, Dynamo resets, failing calls, neighbouring transformed modules) in a fresh simulated process per run; the random source is a logged order-independent PRF so the value set, rounding mode and random-bit count of the inserted quantisers are observed at the seam; outputs and all gradients are compared bitwise with a hand-quantised reference interpreter, and the transformed module must tie exactly the parameters the original ties. Exploration level.",
+        text="Generated programs are transformed with simulate_format/simulate_fp8 and driven through short histories (repeated calls, calls with frozen parameter subsets, Dynamo resets, failing calls, neighbouring transformed modules) in a fresh simulated process per run; the random source is a logged order-independent PRF so the value set, rounding mode and random-bit count of the inserted quantisers are observed at the seam; outputs and all gradients are compared bitwise with a hand-quantised reference interpreter, and the transformed module must tie exactly the parameters the original ties. Exploration level.",
         note="TorchDynamo/AOT run as real opaque components; the reference interpreter uses the library's FPFormat.quantise as the quantiser (its value set is C13/C14's business) but its own straight-through wrappers, operand selection and gradient placement; recorded findings D7 (torch.nn root module) and D9 (lossless gradients equal to rounding only) are probed deterministically and printed as KNOWN-FINDING.",
         technique="deterministic simulation: fork-per-run worlds, PRF random seam with request log, seeded call/reset/fault histories, differential reference interpreter",
         ref="DESIGN.md §3 C15",
@@ -72,7 +72,7 @@ CHECKS = {
     "C18": dict(
         module="checks.c18",
         engine="sim_track",
-        text="Run histories (forward-only / backward from subsets of outputs, repeated, with resets, with other programs tracked or analysed earlier in the same process) of one tracked module are simulated and after every run outputs/gradients are compared bitwise with the untracked module and the recorded metrics with statistics recomputed from independently captured tensors; stale backward metrics across runs are the history-dependent part. Exploration level.",
+        text="Run histories (forward-only / backward from subsets of outputs, repeated, with resets, changing batch sizes, float32 or float64 modules, with other programs tracked or analysed earlier in the same process) of one tracked module are simulated and after every run outputs/gradients are compared bitwise with the untracked module and the recorded metrics with statistics recomputed from independently captured tensors; stale backward metrics across runs are the history-dependent part. Exploration level.",
         note="Values and gradients are observed in the run under test through a wrapper around the tracking backend object found in tracked.backends (instance-level run_node + tensor hooks; installed by the harness, not in /repo); analyse_module is compared with an independent second interpreter; float32 reductions compared at 1e-5 relative, printed 3-digit numbers at 6e-3; rounding-level differences between tracked and untracked results (at most 1e-5 of the largest value, or within 8x the measured effect of one-ulp perturbations of every intermediate for programs that amplify rounding noise) are the recorded finding D13.",
         technique="deterministic simulation: seeded run histories over mutable metrics state, independent capture oracle",
         ref="DESIGN.md §3 C18",
